@@ -20,8 +20,10 @@ import (
 	"fmt"
 	"io"
 	"math/big"
+	"math/bits"
 	"os"
 	"strings"
+	"sync"
 	"time"
 
 	"github.com/markkurossi/mpc/circuit"
@@ -54,6 +56,11 @@ func main() {
 }
 
 type u128 struct{ hi, lo uint64 }
+
+var (
+	seenOffsets   = map[u128]string{}
+	seenOffsetsMu sync.Mutex
+)
 
 // scan slides a 16-byte window over every offset.  Returns offsets of windows
 // equal to R and pairs of offsets whose windows XOR to R.
@@ -118,6 +125,25 @@ func judge(o *hxlib.Out, mode string, idx int, desc string, ab []byte, g *hxlib.
 			}
 		}
 	}
+	// The offset must be a fresh random 127-bit value with the select bit set:
+	// a constant or low-entropy offset is known to the evaluator without any
+	// transmission (every pair L, L xor R is then computable from one label).
+	// Hamming weight of 127 uniform bits outside [24, 104] has probability
+	// below 2^-38; equal offsets in two sessions below 2^-100.
+	if w := bits.OnesCount64(r.hi) + bits.OnesCount64(r.lo); w < 24 || w > 104 {
+		o.Fail("c04-offset-not-random", map[string]any{"mode": mode, "case": idx, "desc": desc, "weight": w,
+			"offset": fmt.Sprintf("%016x%016x", r.hi, r.lo)})
+	}
+	if r.hi>>63 != 1 {
+		o.Fail("c04-offset-select-bit-clear", map[string]any{"mode": mode, "case": idx, "desc": desc})
+	}
+	seenOffsetsMu.Lock()
+	if prev, dup := seenOffsets[r]; dup && prev != fmt.Sprint(mode, idx) {
+		o.Fail("c04-offset-repeated", map[string]any{"mode": mode, "case": idx, "desc": desc, "earlier": prev})
+	}
+	seenOffsets[r] = fmt.Sprint(mode, idx)
+	seenOffsetsMu.Unlock()
+	o.Count("offsets_checked_random")
 	single, pairs := scan(ab, r)
 	o.CountN("window_positions", len(ab)-15)
 	if len(single) > 0 {
